@@ -162,7 +162,7 @@ def _once(ctx, index):
                 "not raised".format("not dominated by `not self.replaced`" if not guarded else "does not set self.replaced = True"),
             )
     ctx.count("replacement_sites", n_sites)
-    ctx.floor("replacement sites in RewriteAtQuery", n_sites, 2)
+    ctx.floor("replacement sites in RewriteAtQuery", n_sites, 1)
 
 
 def _cond_norm(e, fvar):
@@ -308,7 +308,7 @@ def _index_spaces(ctx, index):
                 "is read/overwritten".format(norm(node.value), why),
             )
     ctx.count("defaults_subscripts", n)
-    ctx.floor("subscripts of .defaults / .kw_defaults", n, 2)
+    ctx.floor("subscripts of .defaults / .kw_defaults", n, 1)
 
 
 def _classify_index(f, defs, idx, owner, attr):
